@@ -7,7 +7,6 @@ import (
 	"io"
 	"net"
 	"net/netip"
-	"os"
 	"strconv"
 	"strings"
 	"sync"
@@ -235,26 +234,70 @@ func rxQueue(v6 bool, port uint16, hexAddr string) (q int, found bool) {
 	if v6 {
 		file = "/proc/net/udp6"
 	}
-	b, err := os.ReadFile(file)
+	bp := procBuf.Get().(*[]byte)
+	defer procBuf.Put(bp)
+	fd, err := syscall.Open(file, syscall.O_RDONLY, 0)
 	if err != nil {
 		return 0, false
 	}
-	suffix := fmt.Sprintf(":%04X", port)
-	for _, ln := range strings.Split(string(b), "\n") {
-		f := strings.Fields(ln)
-		if len(f) < 5 || !strings.HasSuffix(f[1], suffix) {
+	n := 0
+	for n < len(*bp) {
+		k, err := syscall.Read(fd, (*bp)[n:])
+		if k <= 0 || err != nil {
+			break
+		}
+		n += k
+	}
+	syscall.Close(fd)
+	var suffix [5]byte
+	suffix[0] = ':'
+	const hexd = "0123456789ABCDEF"
+	suffix[1], suffix[2], suffix[3], suffix[4] = hexd[port>>12], hexd[port>>8&15], hexd[port>>4&15], hexd[port&15]
+	data := (*bp)[:n]
+	for len(data) > 0 {
+		var ln []byte
+		if i := bytes.IndexByte(data, '\n'); i >= 0 {
+			ln, data = data[:i], data[i+1:]
+		} else {
+			ln, data = data, nil
+		}
+		// fields: sl local_address rem_address st tx_queue:rx_queue ...
+		f := fieldsN(ln, 5)
+		if len(f) < 5 || !bytes.HasSuffix(f[1], suffix[:]) {
 			continue
 		}
-		if hexAddr != "" && !strings.HasPrefix(f[1], hexAddr+":") {
+		if hexAddr != "" && !(len(f[1]) == len(hexAddr)+5 && string(f[1][:len(hexAddr)]) == hexAddr) {
 			continue
 		}
-		if i := strings.IndexByte(f[4], ':'); i >= 0 {
-			v, _ := strconv.ParseInt(f[4][i+1:], 16, 64)
+		if i := bytes.IndexByte(f[4], ':'); i >= 0 {
+			v, _ := strconv.ParseInt(string(f[4][i+1:]), 16, 64)
 			q += int(v)
 			found = true
 		}
 	}
 	return q, found
+}
+
+var procBuf = sync.Pool{New: func() any { b := make([]byte, 256<<10); return &b }}
+
+// fieldsN returns the first n space-separated fields of ln without allocating per field.
+func fieldsN(ln []byte, n int) [][]byte {
+	var arr [8][]byte
+	out := arr[:0]
+	for len(ln) > 0 && len(out) < n {
+		for len(ln) > 0 && ln[0] == ' ' {
+			ln = ln[1:]
+		}
+		i := bytes.IndexByte(ln, ' ')
+		if i < 0 {
+			i = len(ln)
+		}
+		if i > 0 {
+			out = append(out, ln[:i])
+		}
+		ln = ln[i:]
+	}
+	return out
 }
 
 // waitDrained waits (real time, bounded) until the resolver has taken everything out of its socket, or closed it.
